@@ -34,6 +34,10 @@ class SimBase(object):
             raise TooManyCommands()
         if self.gone:
             raise nfc.clf.TimeoutError("tag gone")
+        if getattr(self, "outage_left", 0) > 0:
+            # out of the field for a moment: this many exchanges get no answer
+            self.outage_left -= 1
+            raise nfc.clf.TimeoutError("tag out of the field for a moment")
         drop = None
         if self.hook is not None:
             drop = self.hook(self, cmd)      # may raise (command lost)
@@ -60,15 +64,21 @@ class SimClf(object):
     def __init__(self, sim):
         self.sim = sim
         self.nsense = 0
+        self.target = True       # the tag was sensed before activation
 
     def exchange(self, data, timeout):
+        if self.target is None:
+            # ContactlessFrontend.exchange(): "no target for data exchange"
+            return None
         return self.sim.exchange(data, timeout)
 
     def sense(self, *targets, **kw):
         self.nsense += 1
+        # like ContactlessFrontend.sense(): the previous target is forgotten
+        self.target = None
         if self.sim.resense():
-            return targets[0]
-        return None
+            self.target = targets[0]
+        return self.target
 
     @property
     def max_send_data_size(self):
@@ -100,6 +110,8 @@ class Tt2Sim(SimBase):
 
     def nak(self):
         self.mute = True
+        if getattr(self, "gone_after_nak", False):
+            self.gone = True     # taken out of the field right after the NAK
         return bytearray([0x00])
 
     def is_write(self, cmd):
